@@ -202,10 +202,10 @@ impl<'a, I: Iterator<Item = Item>, F: StreamFilter + 'a> Iterator for Compaction
                         continue;
                     }
 
-                    // NOTE: If next item is an actual value, and current value is weak tombstone,
-                    // drop the tombstone
-                    let drop_weak_tombstone = peeked.key.value_type == ValueType::Value
-                        && head.key.value_type == ValueType::WeakTombstone;
+                    // NOTE: If next item is an actual value (inline or separated into a blob file),
+                    // and current value is weak tombstone, drop the tombstone
+                    let drop_weak_tombstone =
+                        !peeked.is_tombstone() && head.key.value_type == ValueType::WeakTombstone;
 
                     if drop_weak_tombstone {
                         // NOTE: A weak tombstone cancels out exactly the one value below it,
